@@ -350,3 +350,155 @@ def operand_enum_variant(body, op, depth=0):
     if rv["k"] == "use" and depth < 4:
         return operand_enum_variant(body, rv["ops"][0], depth + 1)
     return None
+
+
+def discr_subject_field(body, sl, discr_op, depth=0):
+    """For `switch(discriminant(P))`: the last field ('Adt.field') of the place P whose discriminant is
+    tested, following reference temporaries (`_a = &x.f; _d = discriminant(*_a)`).  None if not of that shape."""
+    l = operand_local(discr_op)
+    if l is None:
+        return None
+    for (s, st) in sl.defs.get(l, []):
+        if st.get("k") != "assign":
+            continue
+        rv = st["rv"]
+        if rv["k"] == "discr":
+            lf = last_field(rv["pl"])
+            if lf:
+                return lf
+            return _place_origin_field(body, sl, rv["pl"]["l"], 0)
+        if rv["k"] == "use" and depth < 3:
+            r = discr_subject_field(body, sl, rv["ops"][0], depth + 1)
+            if r:
+                return r
+    return None
+
+
+def _place_origin_field(body, sl, l, depth):
+    for (s, st) in sl.defs.get(l, []):
+        if st.get("k") != "assign":
+            continue
+        rv = st["rv"]
+        if rv["k"] in ("ref", "copy_for_deref", "rawptr"):
+            lf = last_field(rv["pl"])
+            if lf:
+                return lf
+            if depth < 4:
+                return _place_origin_field(body, sl, rv["pl"]["l"], depth + 1)
+        if rv["k"] == "use" and depth < 4:
+            op = rv["ops"][0]
+            if op.get("k") in ("copy", "move"):
+                lf = last_field(op["pl"])
+                if lf:
+                    return lf
+                return _place_origin_field(body, sl, op["pl"]["l"], depth + 1)
+    return None
+
+
+# ---- thread-local / static state ------------------------------------------------------------
+def sites_mentioning_item(prog, item, crates=None):
+    """[(body, site)] whose statement/terminator has a constant operand naming `item`."""
+    out = []
+    for b in prog.all_bodies(crates):
+        for s in b.sites():
+            st = b.at(s)
+            for op in b.operands_of(st):
+                if item in prog.const_items(op):
+                    out.append((b, s))
+                    break
+            else:
+                if st.get("k") == "assign" and st["rv"]["k"] == "tlref" and norm(st["rv"]["def"]) == item:
+                    out.append((b, s))
+    return out
+
+
+def local_items(prog, body, l, depth=0):
+    """Items a local stands for: `_x = const ITEM` / `_x = const promoted(&ITEM)` / `_y = &(*_x)` chains."""
+    out = set()
+    for st in body.whole_defs.get(l, ()):
+        rv = st["rv"]
+        if rv["k"] == "use":
+            op = rv["ops"][0]
+            out |= prog.const_items(op)
+            sl = operand_local(op)
+            if sl is not None and depth < 4:
+                out |= local_items(prog, body, sl, depth + 1)
+        elif rv["k"] in ("ref", "copy_for_deref") and depth < 4:
+            out |= local_items(prog, body, rv["pl"]["l"], depth + 1)
+    return out
+
+
+def call_items(prog, body, term):
+    """Items named (directly or through a local) by the arguments of a call."""
+    out = set()
+    for a in term.get("args", []):
+        out |= prog.const_items(a)
+        l = operand_local(a)
+        if l is not None:
+            out |= local_items(prog, body, l)
+    return out
+
+
+def _closure_overwrites(prog, key):
+    """Does the closure body (passed to LocalKey::with) overwrite / clear the value it is given?"""
+    cb = prog.get(key)
+    if cb is None:
+        return False
+    for s, st in cb.assigns():
+        if "*" in st["dst"].get("p", []) and st["rv"]["k"] in ("use", "aggr"):
+            return True
+    for s, t in cb.calls():
+        for c in cb.callees_of_call(t, passed=False):
+            if c.endswith("::clear") or c.endswith("::take") or c.endswith("mem::replace") or c.endswith("mem::take"):
+                return True
+    return False
+
+
+def resetting_mentions(prog, item, crates=None):
+    """Mentions of a LocalKey/static item that (over)write its content: `.set(..)`, `.replace(..)`, `.take()`,
+    or `.with(|v| <overwrite or clear>)`."""
+    out = []
+    idx = getattr(prog, "_item_call_index", None)
+    if idx is None:
+        idx = {}
+        for b in prog.all_bodies():
+            for s, st in b.calls():
+                for it in call_items(prog, b, st):
+                    idx.setdefault(it, []).append((b, s, st))
+        prog._item_call_index = idx
+    for b, s, st in idx.get(item, []):
+        if crates is not None and b.crate not in crates:
+            continue
+        names = b.callees_of_call(st, passed=False)
+        meth = {n.rsplit("::", 1)[-1] for n in names}
+        if meth & {"set", "replace", "take"}:
+            out.append((b, s, "set"))
+        elif meth & {"with", "try_with", "with_borrow_mut"}:
+            if any(_closure_overwrites(prog, c) for c in b.passed_callables(st)):
+                out.append((b, s, "with-overwrite"))
+    return out
+
+
+def reset_on_entry(prog, run_body, S, item, exclude=()):
+    """Is `item` (over)written on every path from run_body's entry to site S?
+    Returns (bool, explanation)."""
+    ms = [(b, s, k) for b, s, k in resetting_mentions(prog, item) if root_fn(prog, b.nkey) not in exclude]
+    if not ms:
+        return False, "no function overwrites it"
+    direct = [(b, s) for b, s, k in ms if b is run_body and run_body.site_dominates(s, S)]
+    if direct:
+        return True, "written in %s at %s" % (run_body.nkey.split("::")[-1], run_body.loc(direct[0][1]))
+    # functions in which the overwrite happens on every path
+    W = set()
+    for b, s, k in ms:
+        if b.parent:
+            continue
+        if b.path_exists(None, b.is_return, lambda x, s=s: x == s) is None:
+            W.add(b.nkey)
+    if not W:
+        return False, "overwritten only conditionally in %s" % sorted({root_fn(prog, b.nkey) for b, s, k in ms})
+    M = prog.must_call(W) | W
+    w = must_precede(prog, run_body, S, M)
+    if w is None:
+        return True, "through %s" % sorted(x.split("::")[-1] for x in W)
+    return False, "writers %s are not called on every path to the main task" % sorted(W)
